@@ -50,6 +50,7 @@ type c01RLLine struct {
 	EncLen  int            `json:"enclen"`
 	DecEq   bool           `json:"dec_eq"`
 	Det     bool           `json:"det"`
+	LSH     []int          `json:"lsh"`
 }
 
 func safeBuild(a *e5.AItem, shape string) (it secs2.Item, ok bool, pan string) {
@@ -143,6 +144,8 @@ func observeItem(id int, src string, a *e5.AItem, it secs2.Item, shapes []string
 // buildRL realises a run-length leaf (n copies of one element) directly with typed slices.
 func buildRL(k string, n int, x []byte, shape string) (secs2.Item, bool) {
 	switch k {
+	case "LOC":
+		return secs2.NewLocalizedStrItem(0x0102, string(bytes.Repeat(x, n))), true
 	case "A":
 		if shape == "ctor" {
 			return secs2.NewASCIIItem(string(bytes.Repeat(x, n))), true
@@ -231,7 +234,7 @@ func observeRL(w *rec.Writer, id int, rl map[string]any) {
 	wd := e5.Width(k)
 	var x []byte
 	switch {
-	case k == "B" || k == "A" || k == "J" || k == "BOOL":
+	case k == "B" || k == "A" || k == "J" || k == "BOOL" || k == "LOC":
 		var v int
 		json.Unmarshal(xb, &v)
 		x = []byte{byte(v)}
@@ -250,7 +253,10 @@ func observeRL(w *rec.Writer, id int, rl map[string]any) {
 				shape = shape2
 			}
 		}
-		line := &c01RLLine{T: "c01rl", ID: id, RL: rl, Shape: shape, Hdr: []int{}, Unit: []int{}}
+		if k == "LOC" && shape != "slice64" {
+			continue
+		}
+		line := &c01RLLine{T: "c01rl", ID: id, RL: rl, Shape: shape, Hdr: []int{}, Unit: []int{}, LSH: []int{}}
 		func() {
 			defer func() {
 				if p := recover(); p != nil {
@@ -270,12 +276,19 @@ func observeRL(w *rec.Writer, id int, rl map[string]any) {
 			line.Total = len(b)
 			line.EncLen = it.EncodedLen()
 			hl := len(b) - n*wd
+			if k == "LOC" {
+				hl -= 2
+			}
 			if hl < 0 || hl > 4 {
 				line.ErrStr = fmt.Sprintf("implausible header length %d", hl)
 				return
 			}
 			line.Hdr = rec.Ints(b[:hl])
 			body := b[hl:]
+			if k == "LOC" {
+				line.LSH = rec.Ints(body[:2])
+				body = body[2:]
+			}
 			unit := body[:wd]
 			line.Unit = rec.Ints(unit)
 			line.Uniform = bytes.Equal(body, bytes.Repeat(unit, n))
